@@ -338,17 +338,25 @@ pub struct Pred {
     pub alts: Vec<Pred>,
     /// (internal) this prediction passed a point where the framing discipline / the fate of an
     /// undelivered read matters
-    pub alt_wanted: u8,
+    pub alt_wanted: u16,
+    /// the variant flags this prediction was made with
+    pub variant: u16,
+    /// set by the variant in which an undelivered `SYST:ERR:ALL?` consumed nothing: the queue as
+    /// it was before that unit (any prefix of it may in fact have been consumed)
+    pub all_read_from: Option<Vec<ErrObs>>,
 }
 
 /// variant flags of `predict_with`
-pub const V_LAZY: u8 = 1; // unit separator written with the unit's first byte
-pub const V_KEEP: u8 = 2; // an undelivered read-and-clear query consumed nothing
-pub const V_OPCQ: u8 = 4; // `*OPC` sets its bit without leaving a -800 item in the queue
-pub const V_LAZYC: u8 = 8; // like V_LAZY, but written at the unit's first header/data call (even an empty one)
-pub const V_DEFER: u8 = 16; // separator attempted before the handler, its failure reported by the handler's finish()
-pub const V_CLEAR: u8 = 32; // the formatter empties a non-empty buffer at message_start instead of appending to it
-pub const V_NOWRITE: u8 = 64; // a register write whose unit is refused for surplus parameters is not applied
+pub const V_LAZY: u16 = 1; // unit separator written with the unit's first byte
+pub const V_KEEP: u16 = 2; // an undelivered read-and-clear query consumed nothing
+pub const V_OPCQ: u16 = 4; // `*OPC` sets its bit without leaving a -800 item in the queue
+pub const V_LAZYC: u16 = 8; // like V_LAZY, but written at the unit's first header/data call (even an empty one)
+pub const V_DEFER: u16 = 16; // separator attempted before the handler, its failure reported by the handler's finish()
+pub const V_CLEAR: u16 = 32; // the formatter empties a non-empty buffer at message_start instead of appending to it
+pub const V_NOWRITE: u16 = 64; // a mandated command whose unit is refused for surplus / malformed parameters has no effect
+pub const V_TSTQ: u16 = 128; // a failing self-test is also reported to the error hook (queued, ESR bit) by `*TST?`
+pub const V_NOEND: u16 = 256; // a buffer handed in non-empty gets a terminator only if this message wrote something
+pub const V_QEND: u16 = 512; // the terminator is written whenever a query was executed, even if no query wrote anything
 
 
 /// A syntactically valid non-decimal literal whose value needs more than 64 bits: no token can
@@ -577,8 +585,9 @@ struct Interp<'a> {
     opc_seen: bool,
     lazy_call: bool,
     nowrite: bool,
+    tstq: bool,
     /// further open choices met while interpreting (variant flags)
-    wants: u8,
+    wants: u16,
 }
 
 enum UnitEnd {
@@ -838,6 +847,24 @@ impl<'a> Interp<'a> {
         if (u.query && !has_query) || (!u.query && !has_event) {
             return UnitEnd::FailByHandler(ExpErr::Code(-113));
         }
+        // parameters beyond what the command takes (or a lexical fault among them): the unit is
+        // going to be refused. Whether the command acted first is an open choice (V_NOWRITE: it
+        // validates its whole parameter list first, has no effect and reports that fault).
+        let takes_one = !u.query
+            && matches!(
+                c,
+                Contrib::Ese | Contrib::Sre | Contrib::StatReg(_, RegCmd::Enable) | Contrib::StatReg(_, RegCmd::Ntr) | Contrib::StatReg(_, RegCmd::Ptr)
+            );
+        let refused_later = n > takes_one as usize || (p != usize::MAX && p >= takes_one as usize);
+        if refused_later {
+            self.wants |= V_NOWRITE;
+            if self.nowrite {
+                self.executed.push((i, c, u.query));
+                let e = if p != usize::MAX { perr } else { ExpErr::Code(-108) };
+                // (the fault may also be reported by the dispatcher after the handler)
+                return UnitEnd::FailByHandler(ExpErr::Either(Box::new(e), Box::new(ExpErr::CommandClass)));
+            }
+        }
         self.executed.push((i, c, u.query));
         let mut consumed = 0usize;
         if u.query {
@@ -852,7 +879,20 @@ impl<'a> Interp<'a> {
                 Contrib::Idn => Some(IDN_RESPONSE.to_vec()),
                 Contrib::Opc => Some(b"1".to_vec()),
                 Contrib::Stb => self.st.stb(self.mav, self.reading).map(|v| v.to_string().into_bytes()),
-                Contrib::Tst => Some(self.st.tst_code.to_string().into_bytes()),
+                Contrib::Tst => {
+                    if self.st.tst_code != 0 {
+                        self.wants |= V_TSTQ;
+                        if self.tstq {
+                            let e = spec_obs(&ErrSpec {
+                                code: self.st.tst_code,
+                                ext: None,
+                                msg: 0,
+                            });
+                            self.st.record_error(&e);
+                        }
+                    }
+                    Some(self.st.tst_code.to_string().into_bytes())
+                }
                 Contrib::StatReg(r, RegCmd::Event) => {
                     let g = self.st.reg(r);
                     let v = g.event & 0x7fff;
@@ -924,14 +964,7 @@ impl<'a> Interp<'a> {
                     }
                 };
                 consumed = 1;
-                // surplus parameters: the unit is refused after (or, equally acceptable, before)
-                // the register was written
-                let refused_later = n > 1 || p != usize::MAX;
-                if refused_later {
-                    self.wants |= V_NOWRITE;
-                }
                 match c {
-                    _ if refused_later && self.nowrite => {}
                     Contrib::Ese => self.st.ese = v as u8,
                     Contrib::Sre => self.st.sre = v as u8,
                     Contrib::StatReg(r, RegCmd::Enable) => self.st.reg(r).enable = v as u16,
@@ -1005,9 +1038,9 @@ pub fn predict(root: &MNode, st: &ModelState, step: &SendStep, reading: Reading)
                 wanted |= V_LAZYC;
                 more |= V_LAZYC;
             }
-            for m in 1u8..128 {
+            for m in 1u16..1024 {
                 // (the three framing alternatives exclude each other)
-                if m & !wanted != 0 || (m & (V_LAZY | V_LAZYC | V_DEFER)).count_ones() > 1 {
+                if m & !wanted != 0 || (m & (V_LAZY | V_LAZYC | V_DEFER)).count_ones() > 1 || (m & (V_CLEAR | V_NOEND)).count_ones() > 1 {
                     continue;
                 }
                 let a = predict_with(root, st, step, reading, m);
@@ -1024,17 +1057,70 @@ pub fn predict(root: &MNode, st: &ModelState, step: &SendStep, reading: Reading)
     p
 }
 
+/// What `predict_obs` may choose from beyond the variants of `predict` - per property, because
+/// these are ruled out by some statements and left open by others.
+pub const A_PRESCAN_MSG: u8 = 1; // the whole message is lexed first; with a lexical fault anywhere nothing is executed (not C05: "the first unit that fails")
+pub const A_PRESCAN_UNIT: u8 = 2; // each unit is lexed before it is dispatched; a lexically broken unit never reaches its handler
+pub const A_TSTQ: u8 = 4; // V_TSTQ (not C13: "a message that succeeds queues no error")
+pub const A_QEND: u8 = 8; // V_QEND (not C10: "a newline iff some query produced output")
+pub const A_ALL: u8 = 15;
+
 /// The prediction that fits what was observed: `predict`, or one of its alternatives where the
-/// observation (number of handler invocations, device state afterwards, response) fits that one
-/// and not the primary. Either is acceptable to every claimed property; everything else is then
-/// checked against the chosen one.
-pub fn predict_obs(root: &MNode, st: &ModelState, step: &SendStep, reading: Reading, sim_calls: usize, result: &Result<(), ErrObs>, out: &[u8], now: &ModelState) -> Pred {
+/// observation (number of handler invocations, result, device state afterwards, response) fits
+/// that one and not the primary. Every alternative is acceptable to the property that asks
+/// (`allow`); everything else is then checked against the chosen one.
+#[allow(clippy::too_many_arguments)]
+pub fn predict_obs(
+    root: &MNode,
+    st: &ModelState,
+    step: &SendStep,
+    reading: Reading,
+    sim_calls: usize,
+    result: &Result<(), ErrObs>,
+    out: &[u8],
+    now: &ModelState,
+    lex: &Option<(usize, ErrObs)>,
+    allow: u8,
+) -> Pred {
     let mut p = predict(root, st, step, reading);
-    if p.alts.is_empty() || !p.structural {
+    if !p.structural {
         return p;
     }
-    let alts = std::mem::take(&mut p.alts);
-    let fits = |q: &Pred| {
+    let mut alts = std::mem::take(&mut p.alts);
+    if allow & A_TSTQ == 0 {
+        alts.retain(|a| a.variant & V_TSTQ == 0);
+    }
+    if allow & A_QEND == 0 {
+        alts.retain(|a| a.variant & V_QEND == 0);
+    }
+    // a lexical fault somewhere in the message, met by an implementation that looks ahead
+    if let (Some((k, e)), true) = (lex, step.corrupt.is_empty()) {
+        let mut at: Vec<usize> = Vec::new();
+        if allow & A_PRESCAN_UNIT != 0 && *k < step.msg.units.len() {
+            at.push(*k);
+        }
+        if allow & A_PRESCAN_MSG != 0 && !step.msg.units.is_empty() {
+            at.push(0);
+        }
+        for j in at {
+            let mut s2 = step.clone();
+            s2.msg.units[j].hfault = Some(("refused_by_look_ahead".to_string(), B::new()));
+            let mut a = predict_with(root, st, &s2, reading, 0);
+            if a.structural && a.fail_unit == Some(j) {
+                a.result = Err(ExpErr::Code(e.code));
+                alts.push(a);
+            }
+        }
+    }
+    if alts.is_empty() {
+        return p;
+    }
+    let masked = |a: &RegModel, b: &RegModel| {
+        // (bit 15 is never reported: what the raw field holds there is not observable)
+        let m = 0x7fffu16;
+        a.event & m == b.event & m && a.enable & m == b.enable & m && a.ptr & m == b.ptr & m && a.ntr & m == b.ntr & m && (a.cond_unknown || a.cond & m == b.cond & m)
+    };
+    let fits = |q: &mut Pred| {
         if !q.structural || q.calls.len() != sim_calls {
             return false;
         }
@@ -1052,8 +1138,28 @@ pub fn predict_obs(root: &MNode, st: &ModelState, step: &SendStep, reading: Read
             if let Err(x) = result {
                 e.record_error(x);
             }
-            let reg_eq = |a: &RegModel, b: &RegModel| a.event == b.event && a.enable == b.enable && a.ptr == b.ptr && a.ntr == b.ntr && (a.cond_unknown || a.cond == b.cond);
-            if !(e.esr == now.esr && e.ese == now.ese && e.sre == now.sre && e.queue.items == now.queue.items && reg_eq(&e.oper, &now.oper) && reg_eq(&e.ques, &now.ques)) {
+            if let Some(orig) = &q.all_read_from {
+                // an undelivered `SYST:ERR:ALL?`: any number of the oldest items may have been
+                // consumed before the response failed, the rest is kept in order
+                let mut found = false;
+                for k in 0..=orig.len() {
+                    let mut e2 = q.state.clone();
+                    e2.queue.items = orig[k..].to_vec();
+                    if let Err(x) = result {
+                        e2.record_error(x);
+                    }
+                    if e2.queue.items == now.queue.items {
+                        q.state.queue.items = orig[k..].to_vec();
+                        e = e2;
+                        found = true;
+                        break;
+                    }
+                }
+                if !found {
+                    return false;
+                }
+            }
+            if !(e.esr == now.esr && e.ese == now.ese && e.sre == now.sre && e.queue.items == now.queue.items && masked(&e.oper, &now.oper) && masked(&e.ques, &now.ques)) {
                 return false;
             }
         }
@@ -1062,15 +1168,16 @@ pub fn predict_obs(root: &MNode, st: &ModelState, step: &SendStep, reading: Read
             _ => true,
         }
     };
-    if fits(&p) {
+    if fits(&mut p) {
         return p;
     }
     let dbg = std::env::var("VERIF_DEBUG").is_ok();
-    for (k, a) in alts.into_iter().enumerate() {
+    for (k, mut a) in alts.into_iter().enumerate() {
+        let f = fits(&mut a);
         if dbg {
-            eprintln!("DEBUG alt {}: structural={} calls={} result={:?} fail_unit={:?} state_known={} esr={} queue={:?} out={:?} -> fits={}", k, a.structural, a.calls.len(), a.result.as_ref().map_err(|e| e.describe()), a.fail_unit, a.state_known, a.state.esr, a.state.queue.items, a.out.as_ref().map(|o| B(o.clone())), fits(&a));
+            eprintln!("DEBUG alt {} (variant {:#04x}): calls={} result={:?} fail_unit={:?} esr={} queue={:?} -> fits={}", k, a.variant, a.calls.len(), a.result.as_ref().map_err(|e| e.describe()), a.fail_unit, a.state.esr, a.state.queue.items, f);
         }
-        if fits(&a) {
+        if f {
             return a;
         }
     }
@@ -1080,7 +1187,7 @@ pub fn predict_obs(root: &MNode, st: &ModelState, step: &SendStep, reading: Read
     p
 }
 
-fn predict_with(root: &MNode, st: &ModelState, step: &SendStep, reading: Reading, variant: u8) -> Pred {
+fn predict_with(root: &MNode, st: &ModelState, step: &SendStep, reading: Reading, variant: u16) -> Pred {
     let lazy = variant & (V_LAZY | V_LAZYC) != 0;
     let keep = variant & V_KEEP != 0;
     let defer = variant & V_DEFER != 0;
@@ -1109,14 +1216,17 @@ fn predict_with(root: &MNode, st: &ModelState, step: &SendStep, reading: Reading
         opc_seen: false,
         lazy_call: variant & V_LAZYC != 0,
         nowrite: variant & V_NOWRITE != 0,
+        tstq: variant & V_TSTQ != 0,
         wants: 0,
     };
+    let start_len = it.out.len();
     let cap = match &step.fmt {
         FmtCfg::Array { cap } => Some(*cap),
         _ => None,
     };
     let mut result: Result<(), ExpErr> = Ok(());
-    let mut alt_wanted = if st.prefill.is_empty() { 0u8 } else { V_CLEAR };
+    let mut alt_wanted = if st.prefill.is_empty() { 0u16 } else { V_CLEAR | V_NOEND };
+    let mut all_read_from: Option<Vec<ErrObs>> = None;
     let mut fail_unit = None;
     let mut level: Vec<usize> = Vec::new();
     let mut resolved_units = 0;
@@ -1147,6 +1257,31 @@ fn predict_with(root: &MNode, st: &ModelState, step: &SendStep, reading: Reading
             let end = match h {
                 H::Sim(id) => it.sim_unit(i, u, id),
                 H::Contrib(c) => it.contrib_unit(i, u, c),
+            };
+            // a handler that raises its own error while data elements of its unit are still
+            // unread (or malformed further on): the unit has two faults, and which one is
+            // reported is not fixed - the handler's, or the command error for the parameters
+            let end = match end {
+                UnitEnd::FailByHandler(e) if matches!(h, H::Sim(_)) && !matches!(e, ExpErr::CommandClass | ExpErr::Either(..)) => {
+                    let n = u.params.len();
+                    let (p, _) = lex_break(u);
+                    let read = match &u.plan.fail {
+                        Some(f) if e == ExpErr::Exact(spec_obs(&f.err)) => match f.phase {
+                            Phase::Before => 0,
+                            Phase::AfterPull(j) => (j + 1).min(n),
+                            _ => u.plan.pulls.len().min(n),
+                        },
+                        // (a latched response failure, or a refused pull: all earlier pulls were made)
+                        _ => u.plan.pulls.len().min(n),
+                    }
+                    .min(p);
+                    if read < n || p != usize::MAX {
+                        UnitEnd::FailByHandler(ExpErr::Either(Box::new(e), Box::new(ExpErr::CommandClass)))
+                    } else {
+                        UnitEnd::FailByHandler(e)
+                    }
+                }
+                end => end,
             };
             // a query that wrote nothing: whether it still gets a unit separator is not fixed
             if u.query && !it.lazy && it.out.len() == len_before + (len_before > 0) as usize && it.calls.len() + it.executed.len() > entered_before {
@@ -1185,6 +1320,9 @@ fn predict_with(root: &MNode, st: &ModelState, step: &SendStep, reading: Reading
                     if read_and_clear {
                         alt_wanted |= V_KEEP;
                         if keep {
+                            if matches!(h, H::Contrib(Contrib::SystErrAll)) {
+                                all_read_from = Some(st_before_unit.queue.items.clone());
+                            }
                             it.st = st_before_unit.clone();
                         }
                     }
@@ -1217,7 +1355,14 @@ fn predict_with(root: &MNode, st: &ModelState, step: &SendStep, reading: Reading
     let mut out = None;
     if it.structural && result.is_ok() {
         // terminator
-        if !it.out.is_empty() {
+        let wrote = it.out.len() > start_len;
+        let queried = msg.units.iter().any(|u| u.query);
+        if queried && !wrote && it.out.len() == start_len {
+            // no query wrote anything: a terminator all the same?
+            alt_wanted |= V_QEND;
+        }
+        let end = if variant & V_NOEND != 0 { wrote } else { !it.out.is_empty() };
+        if end || (variant & V_QEND != 0 && queried) {
             it.out.push(b'\n');
         }
         if let Some(cap) = cap {
@@ -1243,6 +1388,8 @@ fn predict_with(root: &MNode, st: &ModelState, step: &SendStep, reading: Reading
         resolved_units,
         why_not_structural: it.why,
         alts: Vec::new(),
+        variant,
+        all_read_from,
         alt_wanted: alt_wanted | it.wants | if it.opc_seen { V_OPCQ } else { 0 },
     }
 }
